@@ -1,11 +1,34 @@
 (* C01 - BER encode/decode round trip under every encoder mode.  Statements only. *)
-From PV Require Import Base.Bytes Model.Tag Proofs.TagOctets.
+From PV Require Import Base.Bytes Model.Tag Model.TableTypes Model.Types Model.Enc Model.Dec Gen.Tables
+     Proofs.TagOctets Proofs.TagsetShape Proofs.RoundTrip1.
 Local Open Scope N_scope.
 
-(* placeholder until the staged round-trip theorems land: the framing octets invert *)
+(* the framing octets invert *)
 Theorem C01_header_roundtrip : forall (t: tag) (c: bool) (n: N) (l r: bytes),
   enc_len n false = Ok l ->
   dec_ident (enc_tag t c ++ l ++ r) = Some (mkTag (tcls t) (tcon t || c) (tnum t), l ++ r)
   /\ dec_len (l ++ r) = Some (Some n, r).
 Proof. intros t c n l r H. split; [apply dec_enc_tag | exact (dec_enc_len n l r H)]. Qed.
 Print Assumptions C01_header_roundtrip.
+
+(* Stage 1 of the round trip, for every input: any simple type (BOOLEAN, INTEGER, ENUMERATED,
+   BIT STRING, OCTET STRING, NULL, OBJECT IDENTIFIER, REAL with binary or infinite value, character
+   and useful strings whose octets the type's text codec accepts) under ANY stack of IMPLICIT and
+   EXPLICIT tags of any class and number; definite-length, unsegmented encoder mode; anything may
+   follow the encoding.  The BER decoder returns a value with the same abstract content (abs) and
+   exactly the trailing octets.  The only size hypothesis is the one the implementation has too
+   (lengths up to sys.maxsize, regenerated as index_max). *)
+Theorem C01_roundtrip_stage1 : forall T v b tl,
+  wf_tags T = true -> stage1_val BER BER T v = true ->
+  encode BER true 0 T v = Ok b -> N.of_nat (length b) <= index_max ->
+  exists v', decode BER (Some T) (b ++ tl) = Ok (DV T v', tl) /\ abs T v' = abs T v.
+Proof. exact ber_roundtrip_stage1. Qed.
+Print Assumptions C01_roundtrip_stage1.
+
+(* the hypotheses are met by a non-trivial case: [3] EXPLICIT [APPLICATION 1000] IMPLICIT INTEGER, -129 *)
+Example C01_roundtrip_stage1_nonvacuous :
+  let T := TExp (mkTag Ctx false 3) (TImp (mkTag Appl false 1000) TInt) in
+  wf_tags T = true /\ stage1_val BER BER T (VInt (-129)) = true
+  /\ encode BER true 0 T (VInt (-129)) = Ok [163; 6; 95; 135; 104; 2; 255; 127]
+  /\ N.of_nat 8 <= index_max.
+Proof. vm_compute. repeat split; try reflexivity; discriminate. Qed.
